@@ -109,6 +109,29 @@ def main():
     out.append((bc[0], bc[1], sorted(bc[2]), bc[3]))      # gate order follows a python set (hash order): compare as a set
     return out
 ''',
+    'equality-and-keys': '''
+import dataclasses
+@dataclasses.dataclass
+class Pair:
+    a: int
+    b: tuple
+def main():
+    out = []
+    out.append(frozenset(['a', 'b']) == frozenset(['b', 'a', 'a']))
+    out.append(frozenset(['a']) == frozenset(['b']))
+    out.append({1, 2} == {2, 1}); out.append(set() == set()); out.append([1] == (1,)); out.append(b'ab' == b'ab')
+    d = {}
+    d[(1, frozenset(['x', 'y']))] = 'first'
+    out.append((1, frozenset(['y', 'x'])) in d)
+    out.append(d.get((1, frozenset(['y', 'x', 'x']))))
+    out.append(d.get((1, frozenset(['y']))))
+    d[(1, frozenset(['y', 'x']))] = 'second'
+    out.append(len(d)); out.append(sorted(d.values()))
+    out.append(Pair(1, (2,)) == Pair(1, (2,))); out.append(Pair(1, (2,)) == Pair(1, (3,)))
+    k = {gate.AND: 1, gate.OR: 2}
+    out.append(k[gate.AND]); out.append(gate.XOR in k)
+    return out
+''',
     'tseytin': '''
 from cirbo.sat.cnf.tseytin import tseytin_transformation
 def main():
